@@ -12,6 +12,7 @@ import CV.Drv.Http
 import CV.Drv.Poller
 import CV.Drv.Wake
 import CV.Drv.Stream
+import CV.Drv.Node
 /-
 cvdriver <model> : reads op lines on stdin, answers one line per op on stdout.
 Imports only CV.Model.* / CV.Drv.* (no Mathlib) so that it links as an executable.
@@ -23,7 +24,7 @@ def machines : List (String × Machine) :=
     ("staticpath", staticPathMachine), ("ranges", rangesMachine),
     ("auth", C20.authMachine), ("session", C20.sessionMachine), ("vhost", C20.vhostMachine),
     ("httpresp", httprespMachine), ("ws", wsMachine),
-    ("http", httpMachine), ("poller", pollerMachine), ("wake", wakeMachine), ("stream", streamMachine) ]
+    ("http", httpMachine), ("poller", pollerMachine), ("wake", wakeMachine), ("stream", streamMachine), ("node", nodeMachine) ]
 
 def main (args : List String) : IO UInt32 := do
   match args with
